@@ -32,7 +32,7 @@ def advance (f : Frame) : Frame := { f with p := f.p + 1, d := 0, acc := [] }
 /-- what Inject keeps of the collected objects: everything but the holder itself -/
 def metasOf (f : Frame) : List Obj := f.acc.filter (fun o => o.name != f.name)
 
-@[simp] theorem snames_bump (st : St) (stk : List Frame) (o : Obj) :
+@[simp] theorem snames_bump (stk : List Frame) (o : Obj) :
     (bump stk o).map (·.name) = stk.map (·.name) := by
   cases stk <;> simp [bump]
 
@@ -110,12 +110,16 @@ inductive StepR (sc : Scen) (st : St) : St → Prop
   | stale (f : Frame) (rest : List Frame) (hs : st.stack = f :: rest) (hp : ¬ f.p < (pts sc f.name).length)
       (hcb : (initCallbacks sc st f.name).2 = true) (e : Obj) (he : st.l2 f.name = some e)
       (hw : initResult sc f.name ≠ raw f.name)
-      (hh : finishedHolderHas sc (initCallbacks sc st f.name).1 e = true) :
+      (hh : finishedHolderHas sc st e = true) :
       StepR sc st (failAt (initCallbacks sc st f.name).1 f.name)
   | publish (f : Frame) (rest : List Frame) (hs : st.stack = f :: rest) (hp : ¬ f.p < (pts sc f.name).length)
       (hcb : (initCallbacks sc st f.name).2 = true) (pub : Obj)
-      (hpub : PubCond sc (initCallbacks sc st f.name).1 f.name pub) :
+      (hpub : PubCond sc st f.name pub) :
       StepR sc st (publish (initCallbacks sc st f.name).1 f.name pub rest)
+
+theorem finishedHolderHas_same (sc : Scen) (a b : St) (e : Obj) (h : SameButLog a b) :
+    finishedHolderHas sc a e = finishedHolderHas sc b e := by
+  simp [finishedHolderHas, onStack, h.stack, h.fields]
 
 /-- GetSingleton, case by case -/
 theorem lookup_eq (sc : Scen) (st : St) (c : Nat) :
@@ -190,23 +194,21 @@ theorem step_not_running (sc : Scen) (st : St) (h : st.status ≠ .running) : st
 theorem step_rel (sc : Scen) (st : St) (hrun : st.status = .running) : StepR sc st (step sc st) := by
   unfold step
   split
-  · cases hstk : st.stack with
-    | nil =>
-      dsimp only
-      cases hb : st.todoBoot with
-      | cons n t =>
+  · split
+    · rename_i hstk
+      split
+      · rename_i n t hb
         dsimp only
         exact visit_rel sc st _ n (Src.boot n t hstk hb) (fun _ s => s)
           (by intro o s hs; cases s; simp_all [bump])
-      | nil =>
-        dsimp only
-        cases ht : st.todo with
-        | nil => exact StepR.done hstk hb ht
-        | cons n t =>
+      · rename_i hb
+        split
+        · rename_i ht; exact StepR.done hstk hb ht
+        · rename_i n t ht
           dsimp only
           exact visit_rel sc st _ n (Src.todo n t hstk hb ht) (fun _ s => s)
             (by intro o s hs; cases s; simp_all [bump])
-    | cons f rest =>
+    · rename_i f rest hstk
       dsimp only
       split
       · rename_i hp
@@ -215,9 +217,123 @@ theorem step_rel (sc : Scen) (st : St) (hrun : st.status = .running) : StepR sc 
           exact visit_rel sc st st _ (Src.cand f rest hstk hp hd) _
             (by intro o s hs; rw [hstk]; rfl)
         · rename_i hd
-          sorry
+          change StepR sc st (if (pts sc f.name)[f.p].cands.isEmpty = true then { st with stack := advance f :: rest }
+            else if (metasOf f).isEmpty = true then
+              (if (pts sc f.name)[f.p].required = true then failAt st f.name else { st with stack := advance f :: rest })
+            else if ((metasOf f).any fun o => (pts sc f.name)[f.p].incompat.contains o.name) = true then
+              (if (pts sc f.name)[f.p].required = true then failAt st f.name else { st with stack := advance f :: rest })
+            else { st with
+              fields := upd2 st.fields f.name f.p
+                (if ((pts sc f.name)[f.p]).slice then metasOf f else (metasOf f).take 1),
+              stack := advance f :: rest })
+          by_cases hc : (pts sc f.name)[f.p].cands = []
+          · rw [if_pos (by simp [hc])]
+            exact StepR.advance f rest hstk hp hd (Or.inl hc)
+          · rw [if_neg (by simpa using hc)]
+            by_cases hm : metasOf f = []
+            · rw [if_pos (by simp [hm])]
+              cases hr : (pts sc f.name)[f.p].required with
+              | true => rw [if_pos rfl]; exact StepR.injFail f rest hstk hp hd hc hr (Or.inl hm)
+              | false =>
+                rw [if_neg (by simp)]
+                exact StepR.advance f rest hstk hp hd (Or.inr ⟨hr, Or.inl hm⟩)
+            · rw [if_neg (by simpa using hm)]
+              cases hi : (metasOf f).any fun o => (pts sc f.name)[f.p].incompat.contains o.name with
+              | true =>
+                rw [if_pos rfl]
+                cases hr : (pts sc f.name)[f.p].required with
+                | true => rw [if_pos rfl]; exact StepR.injFail f rest hstk hp hd hc hr (Or.inr hi)
+                | false =>
+                  rw [if_neg (by simp)]
+                  exact StepR.advance f rest hstk hp hd (Or.inr ⟨hr, Or.inr hi⟩)
+              | false =>
+                rw [if_neg (by simp)]
+                exact StepR.write f rest hstk hp hd hc hm hi
       · rename_i hp
-        sorry
+        have same := initCallbacks_same sc st f.name
+        cases hcb : (initCallbacks sc st f.name).2 with
+        | false => rw [if_pos (by simp)]; exact StepR.cbFail f rest hstk hp hcb
+        | true =>
+          rw [if_neg (by simp)]
+          rw [same.l2]
+          split
+          · rename_i h2
+            exact StepR.publish f rest hstk hp hcb _ (Or.inl ⟨h2, rfl⟩)
+          · rename_i e h2
+            split
+            · rename_i hw
+              exact StepR.publish f rest hstk hp hcb _ (Or.inr (Or.inl ⟨e, h2, hw, rfl⟩))
+            · rename_i hw
+              rw [finishedHolderHas_same sc _ st e same]
+              cases hh : finishedHolderHas sc st e with
+              | true => rw [if_pos rfl]; exact StepR.stale f rest hstk hp hcb e h2 hw hh
+              | false =>
+                rw [if_neg (by simp)]
+                exact StepR.publish f rest hstk hp hcb _ (Or.inr (Or.inr ⟨e, h2, hw, hh, rfl⟩))
   · rename_i h; exact absurd hrun h
+
+/-! ### lifting over `run` -/
+
+theorem run_succ (sc : Scen) (k : Nat) (st : St) : run sc (k + 1) st = step sc (run sc k st) := by
+  induction k generalizing st with
+  | zero => rfl
+  | succ k ih => rw [run, ih (step sc st)]; rfl
+
+theorem run_add (sc : Scen) (n m : Nat) (st : St) : run sc (n + m) st = run sc m (run sc n st) := by
+  induction n generalizing st with
+  | zero => simp [run]
+  | succ n ih => rw [Nat.add_right_comm]; exact ih (step sc st)
+
+/-- a step invariant is a run invariant -/
+theorem run_inv (sc : Scen) (I : St → Prop) (hstep : ∀ st, I st → I (step sc st)) (k : Nat) (st : St) (h : I st) :
+    I (run sc k st) := by
+  induction k generalizing st with
+  | zero => exact h
+  | succ k ih => exact ih _ (hstep st h)
+
+/-- to prove a step invariant it is enough to look at the 14 shapes -/
+theorem step_inv_of_rel (sc : Scen) (I : St → Prop)
+    (h : ∀ st st', I st → st.status = .running → StepR sc st st' → I st') (st : St) (hi : I st) : I (step sc st) := by
+  by_cases hr : st.status = .running
+  · exact h st _ hi hr (step_rel sc st hr)
+  · rw [step_not_running sc st hr]; exact hi
+
+theorem run_not_running (sc : Scen) (k : Nat) (st : St) (h : st.status ≠ .running) : run sc k st = st := by
+  induction k with
+  | zero => rfl
+  | succ k ih => rw [run_succ, ih, step_not_running sc st h]
+
+/-! ### projections of the state after the initialization callbacks -/
+
+@[simp] theorem initCallbacks_l1 (sc : Scen) (st : St) (n : Nat) : (initCallbacks sc st n).1.l1 = st.l1 :=
+  (initCallbacks_same sc st n).l1
+@[simp] theorem initCallbacks_l2 (sc : Scen) (st : St) (n : Nat) : (initCallbacks sc st n).1.l2 = st.l2 :=
+  (initCallbacks_same sc st n).l2
+@[simp] theorem initCallbacks_l3 (sc : Scen) (st : St) (n : Nat) : (initCallbacks sc st n).1.l3 = st.l3 :=
+  (initCallbacks_same sc st n).l3
+@[simp] theorem initCallbacks_stack (sc : Scen) (st : St) (n : Nat) : (initCallbacks sc st n).1.stack = st.stack :=
+  (initCallbacks_same sc st n).stack
+@[simp] theorem initCallbacks_fields (sc : Scen) (st : St) (n : Nat) : (initCallbacks sc st n).1.fields = st.fields :=
+  (initCallbacks_same sc st n).fields
+@[simp] theorem initCallbacks_todoBoot (sc : Scen) (st : St) (n : Nat) :
+    (initCallbacks sc st n).1.todoBoot = st.todoBoot := (initCallbacks_same sc st n).todoBoot
+@[simp] theorem initCallbacks_todo (sc : Scen) (st : St) (n : Nat) : (initCallbacks sc st n).1.todo = st.todo :=
+  (initCallbacks_same sc st n).todo
+@[simp] theorem initCallbacks_stage (sc : Scen) (st : St) (n : Nat) : (initCallbacks sc st n).1.stage = st.stage :=
+  (initCallbacks_same sc st n).stage
+@[simp] theorem initCallbacks_status (sc : Scen) (st : St) (n : Nat) : (initCallbacks sc st n).1.status = st.status :=
+  (initCallbacks_same sc st n).status
+
+@[simp] theorem snames_addLog (sc : Scen) (st : St) (n : Nat) (e : Ev) : snames (addLog sc st n e) = snames st := by
+  simp [snames]
+@[simp] theorem snames_initCallbacks (sc : Scen) (st : St) (n : Nat) : snames (initCallbacks sc st n).1 = snames st := by
+  simp [snames]
+@[simp] theorem snames_failAt (st : St) (n : Nat) : snames (failAt st n) = [] := rfl
+@[simp] theorem snames_push (st : St) (c : Nat) : snames (push st c) = c :: snames st := rfl
+@[simp] theorem snames_publish (st : St) (n : Nat) (pub : Obj) (rest : List Frame) :
+    snames (publish st n pub rest) = rest.map (·.name) := by
+  cases rest <;> simp [publish, snames]
+@[simp] theorem snames_setBump (st : St) (o : Obj) : snames { st with stack := bump st.stack o } = snames st := by
+  simp [snames]
 
 end Ioc.M2.Lc
